@@ -12,21 +12,30 @@ fn main() {
         "run" => {
             // nvh run <script> : output on stdout
             let path = args.get(2).expect("script path");
-            let f = std::fs::File::open(path).expect("open script");
+            let f = if path == "-" { None } else { Some(std::fs::File::open(path).expect("open script")) };
             let out = std::io::stdout();
             let mut out = std::io::BufWriter::new(out.lock());
-            let mut world = node::World::new();
+            let mut worlds: std::collections::BTreeMap<usize, node::World> = std::collections::BTreeMap::new();
             std::panic::set_hook(Box::new(|info| {
                 let loc = info.location().map(|l| format!("{}:{}", l.file(), l.line())).unwrap_or_default();
                 let msg = if let Some(s) = info.payload().downcast_ref::<&str>() { s.to_string() }
                           else if let Some(s) = info.payload().downcast_ref::<String>() { s.clone() } else { String::new() };
                 node::LAST_PANIC.with(|p| *p.borrow_mut() = Some(format!("{} {}", loc, msg)));
             }));
-            for line in std::io::BufReader::new(f).lines() {
+            let serve = path == "-";
+            let rd: Box<dyn BufRead> = if serve { Box::new(std::io::BufReader::new(std::io::stdin())) } else { Box::new(std::io::BufReader::new(f.unwrap())) };
+            for line in rd.lines() {
                 let line = line.unwrap();
-                if line.starts_with('#') { writeln!(out, "{}", line).unwrap(); continue; }
+                if line.starts_with('#') { writeln!(out, "{}", line).unwrap(); if serve { writeln!(out, ".").unwrap(); out.flush().unwrap(); } continue; }
                 writeln!(out, "> {}", line).unwrap();
-                for o in world.step(&line) { writeln!(out, "{}", o).unwrap(); }
+                // `@<i> <op>` addresses node i of a cluster; everything else goes to node 1
+                let (ix, op) = match line.strip_prefix('@').and_then(|r| r.split_once(' ')) {
+                    Some((i, rest)) => (i.parse::<usize>().unwrap_or(1), rest.to_string()),
+                    None => (1, line.clone()),
+                };
+                let world = worlds.entry(ix).or_insert_with(|| node::World::new_at(ix));
+                for o in world.step(&op) { writeln!(out, "{}", o).unwrap(); }
+                if serve { writeln!(out, ".").unwrap(); out.flush().unwrap(); }
             }
             out.flush().unwrap();
         }
@@ -37,7 +46,7 @@ fn main() {
             let r = std::panic::catch_unwind(|| {
                 let (dbs, repl_rx, sup_rx) = node::make_dbs(&dir, nundb::bo::ClusterRole::Primary, false);
                 nundb::bo::Databases::load_all_dbs(&dbs);
-                let n = node::Node { repl_fut: None, repl_in: None, dbs, repl_rx, sup_rx, sessions: std::collections::BTreeMap::new(), dir: dir.clone(), notices: std::collections::HashMap::new(), last_dump: vec![] };
+                let n = node::Node { name: "n1".to_string(), sup_fut: None, sup_in: None, links: vec![], repl_fut: None, repl_in: None, dbs, repl_rx, sup_rx, sessions: std::collections::BTreeMap::new(), dir: dir.clone(), notices: std::collections::HashMap::new(), last_dump: vec![] };
                 n.dump()
             });
             match r {
